@@ -48,7 +48,7 @@ CORRUPT_MAXLEN = 3
 KINDS = ["tuple", "iter", "generator", "stream", "file"]        # besides "list"
 KINDS_FEW = ["iter", "stream"]
 KIND_MAXLEN = 3
-KIND_CORRUPT_ALL_MAXLEN = 3
+KIND_CORRUPT_ALL_MAXLEN = 2
 
 selfcheck_result = None
 
